@@ -309,3 +309,88 @@ End Slab.
 Arguments Occ {T}.
 Arguments Vac {T}.
 Arguments sempty {T}.
+
+(** Population count under the three mutators. *)
+Section SlabLen.
+Variable T : Type.
+
+Lemma items_from_length (l : list (entry T)) k0 k1 :
+  length (items_from l k0) = length (items_from l k1).
+Proof.
+  revert k0 k1. induction l as [|e l IH]; intros k0 k1; cbn; auto.
+  destruct e; cbn; auto.
+Qed.
+
+Definition occ_n (e : option (entry T)) : nat :=
+  match e with Some (Occ _) => 1 | _ => 0 end.
+
+Lemma items_from_upd_length (l : list (entry T)) k e k0 :
+  k < length l ->
+  length (items_from (upd l k e) k0) + occ_n (nth_error l k) =
+  length (items_from l k0) + occ_n (Some e).
+Proof.
+  revert k k0. induction l as [|x l IH]; intros [|k] k0 H; cbn in *; try lia.
+  - destruct x, e; cbn; lia.
+  - specialize (IH k (S k0) ltac:(lia)). destruct x; cbn; lia.
+Qed.
+
+Lemma items_from_app_length (l : list (entry T)) e k0 :
+  length (items_from (l ++ [e]) k0) = length (items_from l k0) + occ_n (Some e).
+Proof.
+  revert k0. induction l as [|x l IH]; intros k0; cbn.
+  - destruct e; reflexivity.
+  - destruct x; cbn; rewrite IH; reflexivity.
+Qed.
+
+Lemma slen_sinsert (s : slab T) v : slab_wf s -> slen (fst (sinsert s v)) = S (slen s).
+Proof.
+  intros (l & Hnd & Hc). unfold sinsert, slen, sitems.
+  destruct (Nat.eqb (s_next s) (length (s_entries s))) eqn:E.
+  - cbn. rewrite items_from_app_length. cbn. lia.
+  - apply Nat.eqb_neq in E.
+    destruct (free_chain_inv Hc) as [[Hl _]|(n & l' & -> & Hk & Hc')]; [congruence|].
+    rewrite Hk. cbn.
+    assert (s_next s < length (s_entries s)) as Hlt by (apply nth_error_Some; congruence).
+    pose proof (items_from_upd_length (s_entries s) (Occ v) 0 Hlt) as H.
+    rewrite Hk in H. cbn in H. lia.
+Qed.
+
+Lemma slen_sremove (s : slab T) k v : sget s k = Some v -> S (slen (sremove s k)) = slen s.
+Proof.
+  unfold sget, sremove, slen, sitems.
+  destruct (nth_error (s_entries s) k) as [[v0|n]|] eqn:Ek; try discriminate.
+  intros _. cbn.
+  assert (k < length (s_entries s)) as Hlt by (apply nth_error_Some; congruence).
+  pose proof (items_from_upd_length (s_entries s) (Vac (s_next s)) 0 Hlt) as H.
+  rewrite Ek in H. cbn in H. lia.
+Qed.
+
+Lemma slen_sset (s : slab T) k v : slen (sset s k v) = slen s.
+Proof.
+  unfold sset, slen, sitems.
+  destruct (nth_error (s_entries s) k) as [[v0|n]|] eqn:Ek; auto.
+  cbn.
+  assert (k < length (s_entries s)) as Hlt by (apply nth_error_Some; congruence).
+  pose proof (items_from_upd_length (s_entries s) (Occ v) 0 Hlt) as H.
+  rewrite Ek in H. cbn in H. lia.
+Qed.
+
+Lemma upd_upd (l : list (entry T)) k a b : upd (upd l k a) k b = upd l k b.
+Proof. revert k; induction l as [|x l IH]; intros [|k]; cbn; auto. rewrite IH. reflexivity. Qed.
+
+Lemma sremove_sset (s : slab T) k v : sremove (sset s k v) k = sremove s k.
+Proof.
+  unfold sremove, sset.
+  destruct (nth_error (s_entries s) k) as [[v0|n]|] eqn:Ek; cbn; rewrite ?Ek; auto.
+  assert (k < length (s_entries s)) as Hlt by (apply nth_error_Some; congruence).
+  rewrite nth_upd_same by assumption. rewrite upd_upd. reflexivity.
+Qed.
+
+Lemma slen_zero (s : slab T) : (forall k, sget s k = None) -> sitems s = [].
+Proof.
+  intros H. destruct (sitems s) as [|[k v] l] eqn:E; auto.
+  assert (In (k, v) (sitems s)) as Hin by (rewrite E; left; reflexivity).
+  apply sitems_spec in Hin. rewrite H in Hin. discriminate.
+Qed.
+
+End SlabLen.
